@@ -23,6 +23,7 @@ require (
 	cloud.google.com/go/longrunning v0.6.2 // indirect
 	github.com/0xPolygon/cdk-rpc v0.0.0-20250213125803-179882ad6229 // indirect
 	github.com/0xPolygon/zkevm-ethtx-manager v0.2.15 // indirect
+	github.com/0xPolygonHermez/zkevm-synchronizer-l1 v1.0.7 // indirect
 	github.com/agglayer/go_signer v0.0.7 // indirect
 	github.com/aws/aws-sdk-go-v2 v1.32.8 // indirect
 	github.com/aws/aws-sdk-go-v2/config v1.28.11 // indirect
